@@ -30,7 +30,8 @@ def replay(cached_fn, uncached_fn, key_to_args, behaviours, equal=lambda a, b: a
     mismatches = []
     n = 0
     for bi, beh in enumerate(behaviours):
-        cached_fn.cache_clear()
+        if hasattr(cached_fn, 'cache_clear'):
+            cached_fn.cache_clear()
         first = {}
         hits = misses = 0
         for step, (k, hit) in enumerate(beh):
@@ -39,8 +40,8 @@ def replay(cached_fn, uncached_fn, key_to_args, behaviours, equal=lambda a, b: a
             n += 1
             hits += 1 if hit else 0
             misses += 0 if hit else 1
-            info = cached_fn.cache_info()
-            if (info.hits, info.misses) != (hits, misses):
+            info = cached_fn.cache_info() if hasattr(cached_fn, 'cache_info') else None   # a memo without counters is still a memo
+            if info is not None and (info.hits, info.misses) != (hits, misses):
                 mismatches.append({'behaviour': bi, 'step': step, 'what': 'hit/miss counters differ from the model',
                                    'model': [hits, misses], 'code': [info.hits, info.misses]})
                 break
